@@ -1011,6 +1011,10 @@ def list_class(ip):
 # ------------------------------------------------------------------ strings
 
 def fmt_value(ip, v, spec=''):
+    # LEX (a formatted number reads back as the same number) is assumed for str()/repr()/'{}' only:
+    # a format specification such as :g, :.3f or :e rounds, so nothing is assumed about it
+    if spec not in ('', 'r', 's', 'd') and not isinstance(v, str):       # 'd' prints an integer exactly
+        raise Unsupported("number formatted with the lossy specification %r" % (spec,))
     if isinstance(v, str):
         return v
     if isinstance(v, I.TokStr):
